@@ -4,6 +4,8 @@ A program from the `classic` (functions calling each other WITH arguments) or `c
 generics with generic bases, statics, functions used by methods) and, optionally, one injected semantic
 violation, is rendered under several permutations of its top-level function and class declarations
 (all permutations when <= 4 declarations, else sampled, always including the reverse order).
+A second family (rt_case) uses functions of assorted return types - in other functions and in class methods, well-typed and
+ill-typed - in ways whose checking needs the callee's return type, and permutes those declarations.
 Oracle: accepted/rejected and the diagnostic CATEGORY are identical across permutations; when accepted
 the exit status and stdout are identical.
 """
@@ -75,6 +77,81 @@ def perm_case(draw, profile):
     return {"prog": p, "perms": perms}
 
 
+# ------------------------------------------------------------------ return-type dependence family
+# Functions with assorted return types are USED (in other functions and in class methods) in ways whose checking needs the
+# callee's return type: typed declarations, arithmetic, member access on the result, overload selection, conditions, returns.
+# Well-typed and ill-typed uses are both generated on purpose: the oracle is order-independence, not acceptance.
+
+RT_TYPES = {"int": "7", "long": "8L", "float": "1.5f", "string": '"s"', "boolean": "true", "bit": "1b", "Cn": "new Cn(3)"}
+RT_USES = [
+    "echo({f});",
+    "int v{u} = {f}; echo(v{u});",
+    "long v{u} = {f}; echo(v{u});",
+    "string v{u} = {f}; echo(v{u});",
+    "float v{u} = {f}; echo(v{u});",
+    "boolean v{u} = {f}; echo(v{u});",
+    "bit v{u} = {f}; echo(v{u});",
+    "Cn v{u} = {f}; echo(v{u}.n);",
+    "echo({f} + 1);",
+    "echo({f} * 2);",
+    "echo(-{f});",
+    "echo(!{f});",
+    "echo({f}.bump());",
+    "echo({f}.n);",
+    "Cn p{u} = new Cn(0); p{u}.show({f});",
+    "if ({f}) {{ echo(\"t\"); }}",
+    "echo(twice({f}));",
+    "int[] a{u} = {{1, 2, 3}}; echo(a{u}[{f}]);",
+    "echo({f} == 7);",
+    "echo({f} + \"x\");",
+]
+RT_CLASS = ("class Cn {\n    public int n;\n    public constructor(int s) -> Cn { this.n = s; return this; }\n"
+            "    public function bump() -> int { this.n = this.n + 1; return this.n; }\n"
+            "    public function show(int a) -> void { echo(\"show(int)\"); }\n"
+            "    public function show(string a) -> void { echo(\"show(string)\"); }\n"
+            "    public function show(float a) -> void { echo(\"show(float)\"); }\n}")
+
+
+@st.composite
+def rt_case(draw):
+    nf = draw(st.integers(1, 3))
+    decls = [{"name": "Cn", "text": RT_CLASS}, {"name": "twice", "text": "function twice(int a) -> int { return a * 2; }"}]
+    fns = []
+    for i in range(nf):
+        t = draw(st.sampled_from(sorted(RT_TYPES)))
+        fns.append((f"f{i}", t))
+        decls.append({"name": f"f{i}", "text": f"function f{i}(int a) -> {t} {{ return {RT_TYPES[t]}; }}"})
+    deps = []
+    u = 0
+    nu = draw(st.integers(1, 3))
+    users = []
+    for j in range(nu):
+        body = []
+        rett = draw(st.sampled_from(["void", "void", "int", "string", "Cn"]))
+        for _ in range(draw(st.integers(1, 3))):
+            fname, _t = draw(st.sampled_from(fns))
+            u += 1
+            body.append(draw(st.sampled_from(RT_USES)).format(f=f"{fname}({u})", u=u))
+            deps.append((f"u{j}", fname))
+        if rett != "void":
+            fname, _t = draw(st.sampled_from(fns))
+            body.append(f"return {fname}(0);")
+            deps.append((f"u{j}", fname))
+        in_class = draw(st.integers(0, 2)) == 0
+        if in_class:
+            decls.append({"name": f"u{j}", "text": f"class U{j} {{\n    public constructor() -> U{j} {{ return this; }}\n"
+                                                   f"    public function run() -> {rett} {{ " + " ".join(body) + " }\n}"})
+            users.append(f"U{j} w{j} = new U{j}(); " + (f"w{j}.run();" if rett == "void" else f"echo(w{j}.run());"))
+        else:
+            decls.append({"name": f"u{j}", "text": f"function u{j}() -> {rett} {{ " + " ".join(body) + " }"})
+            users.append(f"u{j}();" if rett == "void" else f"echo(u{j}());")
+    decls.append({"name": "main", "text": "function main() -> void { " + " ".join(users) + " }"})
+    n = len(decls)
+    ident = list(range(n))
+    perms = [ident, ident[::-1]] + [list(draw(st.permutations(ident))) for _ in range(4)]
+    return {"kind": "rt", "decls": decls, "deps": deps, "perms": perms}
+
+
 class C10(Check):
     prop = "C10"
     rule = ("programs with inter-function calls carrying arguments / class hierarchies; all (<=4 decls) or sampled permutations "
@@ -89,7 +166,38 @@ class C10(Check):
         r = progrun.run_cli(self.drv, sc, src)
         return src, r
 
+    def rt_run(self, case, sc, stats=None):
+        base = None
+        nt = False
+        names = [d["name"] for d in case["decls"]]
+        for order in case["perms"]:
+            src = "\n".join(case["decls"][i]["text"] for i in order) + "\n"
+            r = progrun.run_cli(self.drv, sc, src)
+            if r.proc.timeout:
+                if stats is not None:
+                    stats.inconclusive += 1
+                return None
+            if r.proc.crashed():
+                return {"why": "interpreter died", "source": src, **r.proc.brief()}
+            obs = {"rc": r.rc, "cat": r.diag["cat"] if r.diag else None, "out": r.stdout_lines if r.rc == 0 else None}
+            if base is None:
+                base = (src, obs)
+                continue
+            pos = {names[i]: k for k, i in enumerate(order)}
+            if any(pos[a] < pos[b] for a, b in case["deps"]):
+                nt = True
+            if obs != base[1]:
+                return {"why": "declaration order changed the outcome (use of a function's return type)", "order": order,
+                        "original": base[1], "permuted": obs, "diag": r.diag, "source_original": base[0], "source_permuted": src}
+        if stats is not None:
+            acc = base[1]["cat"] is None
+            stats.record(case, nt, sample={"source": base[0], "perms": case["perms"][:2]} if len(base[0]) < 1500 else None,
+                         tags=["return_type_family", "rt_accepted" if acc else "rt_rejected_in_every_order"])
+        return None
+
     def run_case(self, case, sc, stats=None):
+        if case.get("kind") == "rt":
+            return self.rt_run(case, sc, stats)
         p = case["prog"]
         if p.get("classes"):
             # termination filter: generated method calls may recurse without bound through virtual dispatch; the reference
@@ -152,6 +260,9 @@ def _worker(widx, wseed, tier, check):
             f = hyp_search(perm_case(prof), prop, common.derive_seed(wseed, prof), 120 if quick else 2500, stats)
             if f:
                 failures.append(f)
+        f = hyp_search(rt_case(), prop, common.derive_seed(wseed, "rt"), 80 if quick else 2000, stats)
+        if f:
+            failures.append(f)
     return {"stats": stats.export(), "failures": failures}
 
 
